@@ -440,7 +440,15 @@ var (
 	BlockedHook func(site string)
 	UnlockHook  func(site string)
 	LockHook    func(site string)
+	// AcquiredHook is called right after a lock was taken (still holding it).
+	AcquiredHook func(site string)
 )
+
+func acquired(site string) {
+	if h := AcquiredHook; h != nil {
+		h(site)
+	}
+}
 
 func Yield(site string) {
 	if h := YieldHook; h != nil {
@@ -454,11 +462,13 @@ func Lock(site string, m *sync.Mutex) {
 	}
 	if BlockedHook == nil {
 		m.Lock()
+		acquired(site)
 		return
 	}
 	for !m.TryLock() {
 		BlockedHook(site)
 	}
+	acquired(site)
 }
 
 func Unlock(site string, m *sync.Mutex) {
@@ -474,11 +484,13 @@ func RWLock(site string, m *sync.RWMutex) {
 	}
 	if BlockedHook == nil {
 		m.Lock()
+		acquired(site)
 		return
 	}
 	for !m.TryLock() {
 		BlockedHook(site)
 	}
+	acquired(site)
 }
 
 func RWUnlock(site string, m *sync.RWMutex) {
